@@ -117,21 +117,22 @@ def log_constants(ix):
     per = []
     for rel, cls in (("channel/sync_channel.py", "Channel"), ("channel/async_channel.py", "AsyncChannel")):
         f = _find_method(ix, rel, cls, "send_inputs_interact")
-        token = fmt = None
+        token = fmt = tvar = None
         wr = False
         for n in ast.walk(f.node):
             if (isinstance(n, ast.Assign) and len(n.targets) == 1 and isinstance(n.targets[0], ast.Name)
-                    and n.targets[0].id == "_channel_input" and isinstance(n.value, ast.IfExp)):
+                    and isinstance(n.value, ast.IfExp)):
                 v = n.value
                 if (isinstance(v.test, ast.UnaryOp) and isinstance(v.test.op, ast.Not) and isinstance(v.test.operand, ast.Name)
                         and v.test.operand.id == "hidden_input" and isinstance(v.body, ast.Name) and v.body.id == "channel_input"
                         and isinstance(v.orelse, ast.Constant) and isinstance(v.orelse.value, str)):
-                    token = v.orelse.value
+                    token, tvar = v.orelse.value, n.targets[0].id
+        for n in ast.walk(f.node):
             if isinstance(n, ast.Call) and isinstance(n.func, ast.Attribute) and n.func.attr == "info" \
                     and isinstance(n.func.value, ast.Attribute) and n.func.value.attr == "logger":
                 a = n.args
-                if (len(a) == 4 and isinstance(a[0], ast.Constant) and [getattr(x, "id", None) for x in a[1:]]
-                        == ["_channel_input", "channel_response", "hidden_input"]):
+                if (len(a) == 4 and isinstance(a[0], ast.Constant) and tvar is not None and [getattr(x, "id", None) for x in a[1:]]
+                        == [tvar, "channel_response", "hidden_input"]):
                     fmt = a[0].value
             if isinstance(n, ast.Call) and isinstance(n.func, ast.Attribute) and n.func.attr == "write" \
                     and isinstance(n.func.value, ast.Name) and n.func.value.id == "self":
